@@ -187,5 +187,17 @@ Definition verify_w (vo : vopts) (p : presentation) : wr val :=
         end
     end.
 
+(* member names of an object are pairwise different, hereditarily (also inside the texts behind digest strings):
+   what a Go map cannot violate; the hypothesis of the theorems relating this walk to the layered model, evaluated
+   on every observed payload by Corr.check_case *)
+Fixpoint wfb (v : val) {struct v} : bool :=
+  match v with
+  | VDig _ _ _ _ _ x => wfb x
+  | VArr l => forallb wfb l
+  | VObj m => nodups (map fst m) && forallb (fun kv => wfb (snd kv)) m
+  | _ => true
+  end.
+
+
 (* holder.Parse begins with the same VerifyDisclosuresInSDJWT *)
 Definition holder_check_w (payload : val) (ds : list disc) : wr unit := verify_disclosures_w payload ds.
